@@ -11,6 +11,7 @@ import (
 	"strings"
 	"unicode"
 
+	"github.com/hedzr/is/term/color"
 	"github.com/hedzr/logg/slog"
 )
 
@@ -87,6 +88,35 @@ func runC06(r *run) {
 				attrs: g.genAttrs(1+g.intn(4), 2, true, true), tagW: c.tagW, minW: c.minW, name: "other"}
 			noise.msg = strings.NewReplacer("<", "(", ">", ")", "&", "+").Replace(noise.msg)
 			encRun(r, "C06", noise)
+		}
+		if g.chance(1, 15) {
+			// a severity that is printed while still unregistered and registered afterwards (title, maybe
+			// short tags, maybe colors): the tag and colors follow the registration at once
+			v := 200 + i
+			early := &encCase{format: "c", lvl: v, ts: g.encTime(), msg: "before the registration", tagW: c.tagW, minW: c.minW, name: c.name}
+			encRun(r, "C06", early)
+			title := fmt.Sprintf("AUDIT%d", i)
+			var opts []slog.RegOpt
+			tags := [6]string{}
+			if g.chance(1, 2) {
+				tags = [6]string{"", "A", "AU", "AUD", "AUDI", "AUDIT"}
+				opts = append(opts, slog.RegWithShortTags(tags))
+			}
+			clr, bg := -1, -1
+			if g.chance(1, 2) {
+				clr = 31 + g.intn(6)
+				if g.chance(1, 2) {
+					bg = 1 + g.intn(5)
+					opts = append(opts, slog.RegWithColor(color.Color(clr), color.Color(bg)))
+				} else {
+					opts = append(opts, slog.RegWithColor(color.Color(clr)))
+				}
+			}
+			if err := slog.RegisterLevel(slog.Level(v), title, opts...); err != nil {
+				r.violate(violation{What: "harness: registration refused", Actual: err.Error()})
+			}
+			r.emit(fmt.Sprintf("C17 reg %d %s %s %s %s %s %s %s %d %d 12 0", v, hxs(title), hxs(tags[0]), hxs(tags[1]), hxs(tags[2]), hxs(tags[3]), hxs(tags[4]), hxs(tags[5]), clr, bg), "ok")
+			c.lvl = v
 		}
 		encRun(r, "C06", c)
 		lines := strings.Count(strings.TrimRight(c.msg, "\n\r"), "\n") + 1
